@@ -91,8 +91,8 @@ def trimmed(text, isa, keep_extra=12, seed=0):
     # AT&T suffix handling in the model lookup: keep base names too
     want |= {w[:-1] for w in list(want) if len(w) > 3}
     rng = random.Random(seed)
-    keep = [e for e in entries if set(entry_names(e)) & want]
-    rest = [e for e in entries if not set(entry_names(e)) & want]
+    keep = [e for e in entries if set(entry_names(e)) & want or len(entry_names(e)) > 1]
+    rest = [e for e in entries if not (set(entry_names(e)) & want or len(entry_names(e)) > 1)]
     rng.shuffle(rest)
     keep += rest[:keep_extra]
     return head + "".join(keep)
@@ -129,10 +129,15 @@ def sha(text):
     return hashlib.sha256(text.encode()).hexdigest()
 
 
-def load_texts(arch, tiny):
-    key = (arch, tiny)
+def load_texts(arch, tiny, variant=None):
+    key = (arch, tiny, variant)
     if key in CTX["texts"]:
         return CTX["texts"][key]
+    if variant == "hidden_loads":
+        model, isa_text = load_texts(arch, tiny)
+        model = re.sub(r"(?m)^hidden_loads:\s*false\s*$", "hidden_loads: true", model, count=1)
+        CTX["texts"][key] = (model, isa_text)
+        return model, isa_text
     isa = env.isa_of(arch)
     src = os.path.join(env.REPO, "osaca", "data")
     model = open(os.path.join(src, arch + ".yml")).read()
@@ -431,7 +436,7 @@ class Episode:
         self.spec, self.ch = spec, chooser
         self.arch = spec["arch"]
         self.isa = env.isa_of(self.arch)
-        self.base_model, self.isa_text = load_texts(self.arch, spec.get("tiny", True))
+        self.base_model, self.isa_text = load_texts(self.arch, spec.get("tiny", True), spec.get("variant"))
         self.sem_k = 0
         self.semh_k = 0
         self.com_k = 0
@@ -814,6 +819,7 @@ def run_episode(spec, chooser):
 def make_spec(rng, tier, arch, tiny, faults=True):
     isa = env.isa_of(arch)
     return {"property": PROP, "arch": arch, "tiny": tiny, "sticky": rng.choice([1, 1, 4, 16]),
+            "variant": rng.choice([None, None, None, "hidden_loads"]),
             "ops": gen_ops(rng, isa, len(KERNELS[isa]), tier, faults)}
 
 
@@ -827,7 +833,7 @@ def template_job(job):
         for name in job["names"]:
             ops = T[name] + [{"op": "run_group", "procs": [{"kernel": rng.randrange(len(KERNELS[isa])), "options": []}], "tail": True}]
             spec = {"property": PROP, "arch": job["arch"], "tiny": job["tiny"], "sticky": rng.choice([1, 4, 16]), "ops": ops,
-                    "template": name}
+                    "template": name, "variant": rng.choice([None, None, "hidden_loads"])}
             ch = Chooser(seed=derive_seed(rs, name))
             ep = run_episode(spec, ch)
             merge_episode(agg, ep, spec, ch, dict(job, tag="template:" + name), rep)
@@ -862,6 +868,8 @@ def merge_episode(agg, ep, spec, ch, job, i):
     agg.states.update(a.states)
     agg.notes.update(a.notes)
     agg.notes["episodes"] += 1
+    if spec.get("variant"):
+        agg.notes["episodes_with_model_variant_" + spec["variant"]] += 1
     if ep.inconclusive:
         agg.inconclusive += 1
     shape = tuple(op["op"] + (str(len(op.get("procs", []))) if op["op"] == "run_group" else op.get("kind", "")) for op in spec["ops"])
